@@ -757,12 +757,12 @@ Proof.
         -- destruct (no_real_attrs ias) eqn:Enr; [discriminate|].
            cbn [has_text negb andb]. rewrite andb_false_r.
            pose proof (spec_attrs_nonempty _ _ _ _ Esa (or_intror Enr)) as Hne.
-           destruct acc0; [congruence|]. reflexivity.
+           destruct acc0; [exfalso; now apply Hne|]. reflexivity.
         -- rewrite Esp in Hf. discriminate.
         -- destruct (no_real_attrs ias) eqn:Enr; [discriminate|].
            cbn [has_text negb andb]. rewrite andb_false_r.
            pose proof (spec_attrs_nonempty _ _ _ _ Esa (or_intror Enr)) as Hne.
-           destruct acc0; [congruence|]. reflexivity.
+           destruct acc0; [exfalso; now apply Hne|]. reflexivity.
       * (* with children *)
         destruct iks as [|ik0 iks0]; [discriminate|].
         assert (Hht : has_text txt = false).
@@ -773,7 +773,7 @@ Proof.
         rewrite (kids_loop_ref env' ct Hrok _ _ acc0 [] fields HP Ek Hdk Hf); [|intros b []|exact Erk].
         cbn [dbind]. rewrite Hht. cbn [negb andb]. rewrite andb_false_r.
         pose proof (ref_kids_nonempty _ _ _ _ Erk (or_intror ltac:(discriminate))) as Hne.
-        destruct fields; [congruence|]. reflexivity.
+        destruct fields; [exfalso; now apply Hne|]. reflexivity.
 Qed.
 
 Lemma decode_ref_l : forall e, P e.
